@@ -253,10 +253,15 @@ def c06_lift_scope_else_branch(sig, case):
     is copied under both branches of the lifted if; a cursor to a statement of C is forwarded
     onto the position of the old outer if (where the lifted if now stands) instead of to a copy
     of C or to 'invalid'"""
-    if sig.get("op") != "lift_scope" or sig.get("monitor") != "forward" or sig.get("kind") not in ("wrong_stmt", "block_lost_member", "gap_wrong_anchor"):
+    # (std.lift_if is a sequence of lift_scope steps; the stream judges forwarding per step of the script)
+    if sig.get("op") not in ("lift_scope", "std.lift_if") or sig.get("monitor") != "forward" or sig.get("kind") not in ("wrong_stmt", "block_lost_member", "gap_wrong_anchor"):
         return False
     d = (case or {}).get("detail") or {}
-    path = d.get("path") or []
+    path = [list(x) for x in (d.get("path") or [])]
     fwd = d.get("fwd_path")
-    # the cursor sits directly in an else-branch and was forwarded to the statement that owns that branch
-    return bool(path) and path[-1][0] == "orelse" and fwd is not None and [list(x) for x in fwd] == [list(x) for x in path[:-1]]
+    if not path or fwd is None or path[-1][0] != "orelse":
+        return False
+    fwd = [list(x) for x in fwd]
+    # the cursor sits directly in an else-branch and was forwarded to an if that (transitively) owns that
+    # branch: a proper prefix of its own path
+    return len(fwd) < len(path) and path[: len(fwd)] == fwd
